@@ -5,16 +5,21 @@ expression from `MlVerif.Gen.C11`, regenerated from the source on every run; the
 EVERY number of input columns `n`, EVERY `degree`, both `interaction_only` and `include_bias` settings,
 and every content of the input columns (any commutative monoid of values).
 
-Specification (validated against `PolynomialFeatures.powers_` by the correspondence run):
-`polySpec n degree io bias` = bias monomial first, then for d = 1..degree the lexicographic
-combinations of `range(n)` of size d, with replacement (`io = false`) or without (`io = true`).
+Specification: `polySpec n degree io bias` = bias monomial first, then for d = 1..degree the
+lexicographic combinations of `range(n)` of size d, with replacement (`io = false`) or without
+(`io = true`).  That this is what scikit-learn enumerates is PROVED (`spec_is_sklearn_combinations`)
+about `MlVerif.Itertools.sklearnCombinations`: scikit-learn's `PolynomialFeatures._combinations`
+over transcriptions of the two itertools reference algorithms of the Python documentation (index
+list advanced in place inside `while True:`).  The transcriptions themselves are compared with the
+real `itertools` and the real `_combinations` (and `powers_`) by the correspondence run.
 -/
 import MlVerif.Lemmas.PolyLoops
 import MlVerif.Lemmas.PolyNames
 import MlVerif.Lemmas.PolyCount
+import MlVerif.Lemmas.Itertools
 
 namespace MlVerif.C11
-open MlVerif.Poly MlVerif.Gen.C11
+open MlVerif.Poly MlVerif.Gen.C11 MlVerif.Itertools
 
 /-! ### index-level: which monomial each written column holds -/
 
@@ -143,6 +148,79 @@ theorem poly_slow_eq_spec (n degree : Nat) (io bias : Bool) :
     rw [List.range'_succ]
     simp [combs]
 
+/-! ### the specification is scikit-learn's enumeration -/
+
+/-- `itertools.combinations(pool, r)` as documented (index list `list(range(r))`, rightmost index not
+at `i + n - r` incremented, the following ones reset to consecutive values; nothing when `r > n`):
+never an IndexError, the `while True:` loop returns within the fuel, and the tuples yielded are
+those of the strictly increasing index lists in lexicographic order — for EVERY pool and `r`. -/
+theorem itertools_combinations (α : Type) (pool : List α) (r : Nat) :
+    combinations pool r = (combs true pool.length r 0).mapM (tupleOf pool) :=
+  combinations_eq pool r
+
+/-- `itertools.combinations_with_replacement(pool, r)` as documented (index list `[0] * r`, rightmost
+index not at `n - 1` incremented and copied to its right; nothing when `n = 0 < r`): same statement
+with the non-decreasing index lists. -/
+theorem itertools_combinations_with_replacement (α : Type) (pool : List α) (r : Nat) :
+    combinationsWithReplacement pool r = (combs false pool.length r 0).mapM (tupleOf pool) :=
+  combinationsWithReplacement_eq pool r
+
+/-- on `range(n)` the tuples are the index lists themselves: exactly the lists the specification uses -/
+theorem itertools_on_range (n r : Nat) :
+    combinations (List.range n) r = some (combs true n r 0) ∧
+    combinationsWithReplacement (List.range n) r = some (combs false n r 0) :=
+  ⟨combinations_range n r, combinationsWithReplacement_range n r⟩
+
+/-- `PolynomialFeatures._combinations(n, min_degree, max_degree, interaction_only, include_bias)` for
+every `min_degree`, `max_degree` (scikit-learn requires `min_degree ≤ max_degree`; otherwise the
+range is empty on both sides): the empty combination when `include_bias`, then the lexicographic
+combinations of each size `max(1, min_degree) … max_degree`. -/
+theorem sklearn_combinations_min_max (n minDegree maxDegree : Nat) (io bias : Bool) :
+    sklearnCombinationsMinMax n minDegree maxDegree io bias =
+      some ((if bias then [[]] else []) ++
+        (List.range' (max 1 minDegree) (maxDegree + 1 - max 1 minDegree)).flatMap (fun d => combs io n d 0)) :=
+  sklearnCombinationsMinMax_eq n minDegree maxDegree io bias
+
+/-- **The specification is what scikit-learn enumerates.**  For every `n`, every integer
+`degree ≥ 0` (for which `fit` sets `_min_degree = 0`, `_max_degree = degree`) and both flags,
+`PolynomialFeatures._combinations` — itertools algorithms included — yields exactly `polySpec`, in
+order.  `degree = 0` is covered: with `include_bias` the single empty combination; without it
+nothing at all, the configuration that `PolynomialFeatures.fit` refuses (ValueError) before
+enumerating. -/
+theorem spec_is_sklearn_combinations (n degree : Nat) (io bias : Bool) :
+    sklearnCombinations n degree io bias = some (polySpec n degree io bias) :=
+  sklearnCombinations_eq_polySpec n degree io bias
+
+/-- the configuration scikit-learn rejects is exactly the one with no output column -/
+theorem sklearn_rejected_configuration_is_empty (n : Nat) (io : Bool) :
+    sklearnCombinations n 0 io false = some [] := by
+  rw [spec_is_sklearn_combinations]; simp [polySpec]
+
+/-- `_transform_iall` writes scikit-learn's columns (`interaction_only = False`) in scikit-learn's order -/
+theorem iall_eq_sklearn (n degree : Nat) (bias : Bool) :
+    (transformIall monoOps n degree bias).isSome ∧
+    transformIall monoOps n degree bias = sklearnCombinations n degree false bias := by
+  rw [iall_eq_spec, spec_is_sklearn_combinations]; simp
+
+/-- `_transform_ionly` writes scikit-learn's columns (`interaction_only = True`) in scikit-learn's order -/
+theorem ionly_eq_sklearn (n degree : Nat) (bias : Bool) :
+    (transformIonly monoOps n degree bias).isSome ∧
+    transformIonly monoOps n degree bias = sklearnCombinations n degree true bias := by
+  rw [ionly_eq_spec, spec_is_sklearn_combinations]; simp
+
+/-- kind `'poly-slow'` (mlinsights' own copy of the enumeration) agrees with scikit-learn's -/
+theorem poly_slow_eq_sklearn (n degree : Nat) (io bias : Bool) :
+    combinationsPoly n degree io bias = sklearnCombinations n degree io bias := by
+  rw [poly_slow_eq_spec, spec_is_sklearn_combinations]
+
+/-- value level: for every row over a commutative monoid, output column j of `_transform_poly` is the
+product over the j-th combination scikit-learn enumerates (`X[:, comb].prod(1)`). -/
+theorem column_is_sklearn_product {α : Type} {mul : α → α → α} {one : α} (h : CommMonoidLaws mul one)
+    (x : Nat → α) (n degree : Nat) (io bias : Bool) :
+    transformPoly (valOps mul one x) n degree io bias =
+      (sklearnCombinations n degree io bias).map (·.map (prodOf mul one x)) := by
+  rw [column_is_product h, spec_is_sklearn_combinations]; rfl
+
 /-! ### feature names and `n_output_features_` -/
 
 /-- `get_feature_names_out()`: the name of column j is `process_name` of the variables of monomial j
@@ -214,5 +292,28 @@ example : namesRaw monoOps 3 3 true true
 --  = some ["1", "x0", "x1", "x0^2", "x0 x1", "x1^2"], compared with the real code on every run)
 example : (featureNamesPoly (fun i => s!"x{i}") 2 2 false true).map List.length = some 6 := by
   rw [names_denote_columns]; decide +kernel
+
+-- the itertools transcriptions, run by the kernel (index lists, `while True:` with fuel)
+example : combinations (List.range 4) 2 = some [[0,1], [0,2], [0,3], [1,2], [1,3], [2,3]] := by decide +kernel
+example : combinations [10, 20, 30, 40] 3 = some [[10,20,30], [10,20,40], [10,30,40], [20,30,40]] := by
+  decide +kernel
+example : combinationsWithReplacement (List.range 3) 2 = some [[0,0], [0,1], [0,2], [1,1], [1,2], [2,2]] := by
+  decide +kernel
+-- the early returns: `r > n`, and `not n and r`; `r = 0` yields the empty tuple once
+example : combinations (List.range 2) 3 = some [] ∧ combinationsWithReplacement (List.range 0) 2 = some [] ∧
+    combinations (List.range 0) 0 = some [[]] ∧ combinationsWithReplacement (List.range 0) 0 = some [[]] := by
+  decide +kernel
+-- one turn of each loop body: pivot in the middle, tail reset
+example : nextComb 5 3 [0, 3, 4] = some (some [1, 2, 3]) ∧ nextComb 5 3 [2, 3, 4] = some none ∧
+    nextCwr 3 3 [0, 2, 2] = some (some [1, 1, 1]) ∧ nextCwr 3 3 [2, 2, 2] = some none := by decide +kernel
+-- a malformed index list is an IndexError in the model, not a default value
+example : nextComb 5 3 [0, 1] = none := by decide +kernel
+example : sklearnCombinations 2 3 false true
+    = some [[], [0], [1], [0,0], [0,1], [1,1], [0,0,0], [0,0,1], [0,1,1], [1,1,1]] := by decide +kernel
+example : sklearnCombinations 3 3 true false = some [[0], [1], [2], [0,1], [0,2], [1,2], [0,1,2]] := by
+  decide +kernel
+example : sklearnCombinationsMinMax 2 2 3 false true
+    = some [[], [0,0], [0,1], [1,1], [0,0,0], [0,0,1], [0,1,1], [1,1,1]] := by decide +kernel
+example : transformIonly monoOps 3 3 false = sklearnCombinations 3 3 true false := (ionly_eq_sklearn 3 3 false).2
 
 end MlVerif.C11
